@@ -627,13 +627,13 @@ package kcp
 //@   requires enc.wfP() && len(data) >= 6
 //@   modifies enc.next, data[..]
 //@   ensures @C09 le32(data, 0) == old(enc.next) && le16(data, 4) == 241
-//@   ensures @C09 enc.next == (old(enc.next) + 1) % enc.paws && enc.next < enc.paws
+//@   ensures @C09 @C07 @C12 enc.next == (old(enc.next) + 1) % enc.paws && enc.next < enc.paws
 //@   ensures forall j int :: j < 0 || j >= 6 ==> data[j] == old(data[j])
 //@ func fecEncoder.sealParity
 //@   requires enc.wfP() && len(data) >= 6
 //@   modifies enc.next, data[..]
 //@   ensures @C09 le32(data, 0) == old(enc.next) && le16(data, 4) == 242
-//@   ensures @C09 enc.next == (old(enc.next) + 1) % enc.paws && enc.next < enc.paws
+//@   ensures @C09 @C07 @C12 enc.next == (old(enc.next) + 1) % enc.paws && enc.next < enc.paws
 //@   ensures forall j int :: j < 0 || j >= 6 ==> data[j] == old(data[j])
 //@ func fecEncoder.sealOOB
 //@   requires len(data) >= 6
@@ -643,7 +643,7 @@ package kcp
 //@ func fecEncoder.skipParity
 //@   requires enc.wfP()
 //@   modifies enc.next
-//@   ensures @C09 enc.next == uint32(old(enc.next) + enc.parityShards) % enc.paws && enc.next < enc.paws
+//@   ensures @C09 @C07 @C12 enc.next == uint32(old(enc.next) + enc.parityShards) % enc.paws && enc.next < enc.paws
 //@ func fecEncoder.encodeOOB
 //@   requires enc.wfP() && enc.payloadOffset + 2 <= len(b)
 //@   modifies b[..]
